@@ -401,7 +401,7 @@ def BASE(value, base, places=DEFAULT):
     if isinstance(base, error.XLError):
         return base
     if places is not DEFAULT:
-        places = utils.parse_number(places)
+        places = utils.whole(utils.parse_number(places))
         if isinstance(places, error.XLError):
             return places
         if places < 0:
